@@ -1,7 +1,7 @@
 SPECIFICATION Spec
 CONSTANTS
   Apps <- AllApps
-  Catching <- Both
+  Catching <- OnlyTrue
   Verbs <- Verbs2
   MCLines <- LinesOne
   Pres <- PresNone
